@@ -6,12 +6,25 @@ Two techniques (DESIGN.md 3.1):
   `dex.BRANCH_DEX_OPCODES` (regular expressions) x `dex.DALVIK_OPCODES_FORMAT` (mnemonics);
 * AST extraction (source text of the tree under test, no import) of every opcode test the model
   depends on:
-    - the `if / elif` chain of `dex.determineNext` (return/throw, goto, if, switch) and the payload
-      alignment constant of its `% 4`,
+    - the four opcode cases of `dex.determineNext` (return/throw, goto, if, switch) and the payload
+      alignment constant of its padding,
     - the special-instruction test of `DEXBasicBlock.push`,
-    - the four opcode tests of `Analysis._create_xref` (class use, invoke, string, field).
-  Each test expression (comparisons of `op_value` with integer literals joined by and/or, chained
-  comparisons, `in (…)`) is translated to a Lean `Nat → Bool` definition.
+    - the four opcode tests of `Analysis._create_xref` (class use, invoke, string, field),
+    - the shape of `EncodedMethod.get_instructions_idx` (a pure generator; read strictly).
+  Each test expression is translated to a Lean `Nat → Bool` definition.
+
+What is read semantically rather than textually (behaviour-preserving rewrites keep the generated file):
+  * the opcode local is whatever name holds `….get_op_value()`;
+  * the cases may be an `if/elif` chain, consecutive `if`s whose bodies end in return/continue/raise, or a mix;
+  * tests: and/or/not, chained comparisons, `in` over a tuple/list/set or `range(a, b)`; an inverted guard
+    `if <not a switch>: return []` in front of the switch code; operands are constant integer
+    expressions (literals, module-level integer constants, arithmetic on them, `ord('c')`);
+  * the padding of the switch payload lookup: locals are substituted, one level of a private module-level
+    straight-line helper is inlined, and the resulting expression — which must depend on the encoded offset
+    only through `% K` — is compared with `0 if n % A == 0 else A - n % A` on three full periods, which
+    proves equality for all integers (so `-n % 4` is accepted, `n % 4` or `4 - n % 4` are not).
+Everything else (another number of cases, a case that returns something else, a payload lookup that is not
+base + padding, a memoising get_instructions_idx, …) raises.
 
 A shape that can no longer be read raises; fw records a broken obligation, not a crash.
 """
@@ -28,32 +41,85 @@ class Unreadable(ValueError):
     pass
 
 
-def _int(node):
+CONSTS = {}          # module-level integer constants of the file being read (name -> int)
+
+
+def module_consts(tree):
+    """NAME = <constant integer expression> at module level (later assignment wins, as at import time)"""
+    out = {}
+    for st in tree.body:
+        if isinstance(st, ast.Assign) and len(st.targets) == 1 and isinstance(st.targets[0], ast.Name):
+            try:
+                out[st.targets[0].id] = _int(st.value, out)
+            except Unreadable:
+                out.pop(st.targets[0].id, None)
+    return out
+
+
+def _int(node, consts=None):
+    """value of a constant integer expression: literals, module-level integer constants, unary minus,
+    + - * // % << >> | & of such, `ord('c')`"""
+    consts = CONSTS if consts is None else consts
     if isinstance(node, ast.Constant) and isinstance(node.value, int) and not isinstance(node.value, bool):
         return node.value
-    raise Unreadable("expected an integer literal, got " + ast.dump(node))
+    if isinstance(node, ast.Name) and node.id in consts:
+        return consts[node.id]
+    if isinstance(node, ast.UnaryOp) and isinstance(node.op, ast.USub):
+        return -_int(node.operand, consts)
+    if isinstance(node, ast.Call) and isinstance(node.func, ast.Name) and node.func.id == "ord" and len(node.args) == 1 \
+            and isinstance(node.args[0], ast.Constant) and isinstance(node.args[0].value, str) and len(node.args[0].value) == 1:
+        return ord(node.args[0].value)
+    if isinstance(node, ast.BinOp):
+        a, b = _int(node.left, consts), _int(node.right, consts)
+        ops = {ast.Add: lambda: a + b, ast.Sub: lambda: a - b, ast.Mult: lambda: a * b, ast.LShift: lambda: a << b,
+               ast.RShift: lambda: a >> b, ast.BitOr: lambda: a | b, ast.BitAnd: lambda: a & b}
+        if type(node.op) in ops:
+            return ops[type(node.op)]()
+        if isinstance(node.op, (ast.FloorDiv, ast.Mod)) and b != 0:
+            return a // b if isinstance(node.op, ast.FloorDiv) else a % b
+    raise Unreadable("expected a constant integer expression, got " + ast.dump(node)[:120])
 
 
 def _atom(node, var):
     if isinstance(node, ast.Name) and node.id == var:
         return "op"
-    return "0x%x" % _int(node)
+    v = _int(node)
+    if v < 0:
+        raise Unreadable("negative constant in an opcode test")
+    return "0x%x" % v
 
 
 def lean_test(node, var="op_value"):
-    """Python boolean test over `var` -> Lean Bool expression over `op : Nat`"""
+    """Python boolean test over the local `var` -> Lean Bool expression over `op : Nat`.
+    Accepted: and / or / not, chained comparisons (== != < <= > >=) of `var` with constant integer
+    expressions, `var in (…)` / `[…]` / `{…}` of such (and `not in`)."""
     if isinstance(node, ast.BoolOp):
         j = " || " if isinstance(node.op, ast.Or) else " && "
         return "(" + j.join(lean_test(v, var) for v in node.values) + ")"
+    if isinstance(node, ast.UnaryOp) and isinstance(node.op, ast.Not):
+        inner = node.operand
+        flip = {ast.In: ast.NotIn, ast.NotIn: ast.In, ast.Eq: ast.NotEq, ast.NotEq: ast.Eq}
+        if isinstance(inner, ast.UnaryOp) and isinstance(inner.op, ast.Not):
+            return lean_test(inner.operand, var)                      # not not t
+        if isinstance(inner, ast.Compare) and len(inner.ops) == 1 and type(inner.ops[0]) in flip:
+            return lean_test(ast.Compare(left=inner.left, ops=[flip[type(inner.ops[0])]()],
+                                         comparators=inner.comparators), var)   # not (a not in S) = a in S
+        return "(!%s)" % lean_test(inner, var)
     if isinstance(node, ast.Compare):
         parts = []
         left = node.left
         for op, right in zip(node.ops, node.comparators):
             if isinstance(op, (ast.In, ast.NotIn)):
-                if not isinstance(right, (ast.Tuple, ast.List, ast.Set)):
-                    raise Unreadable("`in` over something that is not a literal collection")
-                elems = ", ".join("0x%x" % _int(e) for e in right.elts)
-                e = "(List.elem %s [%s])" % (_atom(left, var), elems)
+                if isinstance(right, ast.Call) and isinstance(right.func, ast.Name) and right.func.id == "range" \
+                        and not right.keywords and len(right.args) in (1, 2):
+                    lo = "0x0" if len(right.args) == 1 else _atom(right.args[0], var)   # range(n) = range(0, n)
+                    hi = _atom(right.args[-1], var)
+                    e = "((Nat.ble %s %s) && (Nat.blt %s %s))" % (lo, _atom(left, var), _atom(left, var), hi)
+                elif isinstance(right, (ast.Tuple, ast.List, ast.Set)):
+                    elems = ", ".join(_atom(e, var) for e in right.elts)
+                    e = "(List.elem %s [%s])" % (_atom(left, var), elems)
+                else:
+                    raise Unreadable("`in` over something that is not a literal collection or range(a, b)")
                 parts.append(e if isinstance(op, ast.In) else "(!%s)" % e)
             else:
                 a, b = _atom(left, var), _atom(right, var)
@@ -91,20 +157,55 @@ def find_def(tree, name, cls=None):
     raise Unreadable("def %s not found" % name)
 
 
-def if_chain(fn, var="op_value"):
-    """[(test, body)] of the first `if` statement of `fn` whose test mentions `var`, following elif"""
-    for st in fn.body:
-        if isinstance(st, ast.If) and any(isinstance(x, ast.Name) and x.id == var for x in ast.walk(st.test)):
-            out = []
+def op_var(stmts):
+    """the local that holds `<something>.get_op_value()` (whatever it is called), looked up in `stmts`"""
+    names = []
+    for st in stmts:
+        if isinstance(st, ast.Assign) and len(st.targets) == 1 and isinstance(st.targets[0], ast.Name) \
+                and isinstance(st.value, ast.Call) and isinstance(st.value.func, ast.Attribute) \
+                and st.value.func.attr == "get_op_value" and not st.value.args:
+            names.append(st.targets[0].id)
+    if len(set(names)) != 1:
+        raise Unreadable("expected exactly one local holding get_op_value(), found %r" % names)
+    return names[0]
+
+
+def _mentions(node, var):
+    return any(isinstance(x, ast.Name) and x.id == var for x in ast.walk(node))
+
+
+def _leaves(body):
+    """does control never fall out of the end of this statement list? (last statement returns/continues/raises)"""
+    return bool(body) and isinstance(body[-1], (ast.Return, ast.Continue, ast.Raise))
+
+
+def case_chain(stmts, var):
+    """the ordered opcode cases [(test, body)] of a statement list: an `if / elif / elif …` chain, or the
+    same written as consecutive `if`s whose bodies end in return / continue / raise (early exits), or a
+    mixture; the two forms are equivalent because control cannot fall from such a body into the next test.
+    Statements between the cases that do not mention `var` in a test are allowed only before the first case."""
+    cases = []
+    started = False
+    for k, st in enumerate(stmts):
+        if isinstance(st, ast.If) and _mentions(st.test, var):
+            started = True
             cur = st
             while True:
-                out.append((cur.test, cur.body))
-                if len(cur.orelse) == 1 and isinstance(cur.orelse[0], ast.If):
+                cases.append((cur.test, cur.body))
+                if len(cur.orelse) == 1 and isinstance(cur.orelse[0], ast.If) and _mentions(cur.orelse[0].test, var):
                     cur = cur.orelse[0]
-                else:
-                    break
-            return out
-    raise Unreadable("no if-chain over %s in %s" % (var, fn.name))
+                    continue
+                break
+            if cur.orelse:
+                return cases, cur.orelse              # a final else: the default
+            if not all(_leaves(b) for _, b in cases):
+                return cases, stmts[k + 1:]           # ordinary chain followed by other code
+            continue                                  # early-exit form: the next `if` is the next case
+        if started:
+            return cases, stmts[k:]
+    if not cases:
+        raise Unreadable("no opcode case over `%s`" % var)
+    return cases, []
 
 
 def _returns_list_len(body):
@@ -115,62 +216,233 @@ def _returns_list_len(body):
     return None
 
 
+# ---- the switch payload padding, read as a function of the encoded byte offset ------------------------
+def _flat_sum(node):
+    """terms of a sum (a + b + c …), each as an ast.dump string, sorted"""
+    if isinstance(node, ast.BinOp) and isinstance(node.op, ast.Add):
+        return sorted(_flat_sum(node.left) + _flat_sum(node.right))
+    return [ast.dump(node)]
+
+
+class _Subst(ast.NodeTransformer):
+    def __init__(self, env):
+        self.env = env
+
+    def visit_Name(self, node):
+        if isinstance(node.ctx, ast.Load) and node.id in self.env:
+            return self.env[node.id]
+        return node
+
+
+def _inline_call(call, helpers, depth=0):
+    """a call to a module-level helper `f(args…)` whose body is `name = expr` lines and one final `return expr`
+    (a docstring is skipped) is replaced by the returned expression with parameters and locals substituted"""
+    fn = helpers[call.func.id]
+    if call.keywords or len(call.args) != len(fn.args.args) or fn.args.vararg or fn.args.kwarg or fn.args.kwonlyargs:
+        raise Unreadable("cannot inline the call of %s" % fn.name)
+    env = {a.arg: arg for a, arg in zip(fn.args.args, call.args)}
+    for st in fn.body:
+        if isinstance(st, ast.Expr) and isinstance(st.value, ast.Constant) and isinstance(st.value.value, str):
+            continue
+        if isinstance(st, ast.Assign) and len(st.targets) == 1 and isinstance(st.targets[0], ast.Name):
+            env[st.targets[0].id] = _resolve(st.value, env, helpers, depth + 1)
+            continue
+        if isinstance(st, ast.Return) and st is fn.body[-1] and st.value is not None:
+            return _resolve(st.value, env, helpers, depth + 1)
+        raise Unreadable("helper %s is not straight-line (assignments + return)" % fn.name)
+    raise Unreadable("helper %s does not return" % fn.name)
+
+
+def _resolve(expr, env, helpers, depth=0):
+    """substitute single-assignment locals and inline (one level of) private module-level helpers"""
+    import copy
+    e = _Subst(env).visit(copy.deepcopy(expr))
+    if depth <= 1:
+        class In(ast.NodeTransformer):
+            def visit_Call(self, node):
+                self.generic_visit(node)
+                if isinstance(node.func, ast.Name) and node.func.id in helpers:
+                    return _inline_call(node, helpers, depth)
+                return node
+        e = In().visit(e)
+    return e
+
+
+def _eval_pad(node, n):
+    """evaluate a padding expression at N = n; N may only occur below a `% K` (K a positive constant), so
+    that the expression is periodic in N"""
+    if isinstance(node, ast.Name) and node.id == "__N__":
+        return n
+    if isinstance(node, ast.IfExp):
+        return _eval_pad(node.body, n) if _eval_pad(node.test, n) else _eval_pad(node.orelse, n)
+    if isinstance(node, ast.UnaryOp) and isinstance(node.op, ast.USub):
+        return -_eval_pad(node.operand, n)
+    if isinstance(node, ast.UnaryOp) and isinstance(node.op, ast.Not):
+        return not _eval_pad(node.operand, n)
+    if isinstance(node, ast.BinOp) and isinstance(node.op, (ast.Add, ast.Sub, ast.Mult, ast.Mod)):
+        a, b = _eval_pad(node.left, n), _eval_pad(node.right, n)
+        return a + b if isinstance(node.op, ast.Add) else a - b if isinstance(node.op, ast.Sub) else \
+            a * b if isinstance(node.op, ast.Mult) else a % b
+    if isinstance(node, ast.Compare) and len(node.ops) == 1 and isinstance(node.ops[0], (ast.Eq, ast.NotEq)):
+        a, b = _eval_pad(node.left, n), _eval_pad(node.comparators[0], n)
+        return (a == b) if isinstance(node.ops[0], ast.Eq) else (a != b)
+    return _int(node)
+
+
+def _moduli(node, under_mod, out):
+    """collect the constant moduli; raise if N occurs outside every `% K`"""
+    if isinstance(node, ast.Name) and node.id == "__N__":
+        if not under_mod:
+            raise Unreadable("the padding depends on the offset itself, not only on its residue")
+        return
+    if isinstance(node, ast.BinOp) and isinstance(node.op, ast.Mod):
+        k = _int(node.right)
+        if k <= 0:
+            raise Unreadable("modulus of the padding is not a positive constant")
+        out.append(k)
+        _moduli(node.left, True, out)
+        return
+    for ch in ast.iter_child_nodes(node):
+        _moduli(ch, under_mod, out)
+
+
+def padding_alignment(sw_body, helpers):
+    """From the switch case of determineNext: the argument of `get_ins_off(…)` must be BASE + P where P (after
+    substituting locals and inlining a private helper) is a function of BASE alone, built from constants,
+    + - * % (positive constant modulus), unary minus, == / != and conditional expressions, with BASE only
+    below a `%`.  Such a P is periodic in BASE (a polynomial with integer coefficients keeps its residue
+    mod K when BASE grows by K), so comparing it with the model's `0 if n % A == 0 else A - n % A` on three
+    full periods proves them equal for every integer.  Returns A."""
+    import math
+    env = {}
+    arg = None
+    for st in sw_body:
+        for x in ast.walk(st):
+            if isinstance(x, ast.Call) and isinstance(x.func, ast.Attribute) and x.func.attr == "get_ins_off":
+                if arg is not None or len(x.args) != 1:
+                    raise Unreadable("more than one payload lookup in the switch case")
+                arg = x.args[0]
+        if isinstance(st, ast.Assign) and len(st.targets) == 1 and isinstance(st.targets[0], ast.Name) and arg is None:
+            name = st.targets[0].id
+            if name in env and ast.dump(env[name]) != ast.dump(_resolve(st.value, {k: v for k, v in env.items() if k != name}, helpers)):
+                raise Unreadable("local %s of the switch case is assigned twice with different values" % name)
+            env[name] = _resolve(st.value, env, helpers)
+    if arg is None:
+        raise Unreadable("the switch case of determineNext no longer looks the payload up")
+    # split the lookup offset into its terms BEFORE substituting, to find the padding term
+    def terms(node):
+        if isinstance(node, ast.BinOp) and isinstance(node.op, ast.Add):
+            return terms(node.left) + terms(node.right)
+        return [node]
+    ts = [_resolve(t, env, helpers) for t in terms(arg)]
+    ts = [u for t in ts for u in terms(t)] if False else ts
+    pads = [t for t in ts if any(isinstance(x, ast.BinOp) and isinstance(x.op, ast.Mod) for x in ast.walk(t))]
+    if len(pads) != 1:
+        raise Unreadable("cannot find the padding term in the payload lookup offset")
+    pad = pads[0]
+    base = sorted(d for t in ts if t is not pad for d in _flat_sum(t))
+    if not base:
+        raise Unreadable("payload lookup offset has no base")
+    # every maximal sum inside the padding that equals BASE becomes the symbol N
+
+    class ToN(ast.NodeTransformer):
+        def visit(self, node):
+            if isinstance(node, ast.expr) and _flat_sum(node) == base:
+                return ast.Name(id="__N__", ctx=ast.Load())
+            return self.generic_visit(node)
+    padn = ToN().visit(pad)
+    for x in ast.walk(padn):
+        if isinstance(x, (ast.Call, ast.Attribute, ast.Subscript)) or (isinstance(x, ast.Name) and x.id != "__N__" and x.id not in CONSTS):
+            raise Unreadable("the padding is not a function of the encoded payload offset alone")
+    ks = []
+    _moduli(padn, False, ks)
+    if not ks:
+        raise Unreadable("payload alignment (a `% K`) not found in determineNext")
+    period = 1
+    for k in ks:
+        period = period * k // math.gcd(period, k)
+    for align in sorted(set(ks + [period])):
+        if all(_eval_pad(padn, n) == (0 if n % align == 0 else align - n % align) for n in range(-period, 2 * period)):
+            return align
+    raise Unreadable("the padding is not `distance to the next multiple of K`")
+
+
+def private_helpers(tree):
+    return {n.name: n for n in tree.body if isinstance(n, ast.FunctionDef) and n.name.startswith("_")}
+
+
 def extract_next(repo):
     tree = ast.parse(open(os.path.join(repo, DEX)).read())
+    CONSTS.clear()
+    CONSTS.update(module_consts(tree))
     fn = find_def(tree, "determineNext")
-    chain = if_chain(fn)
+    var = op_var(fn.body)
+    chain, rest = case_chain(fn.body, var)
     if len(chain) != 4:
         raise Unreadable("determineNext has %d opcode cases (model knows 4)" % len(chain))
     (t_exit, b_exit), (t_goto, b_goto), (t_if, b_if), (t_sw, b_sw) = chain
+    if len(b_sw) == 1 and isinstance(b_sw[0], ast.Return) and isinstance(b_sw[0].value, ast.List) \
+            and not b_sw[0].value.elts and rest and isinstance(rest[-1], ast.Return):
+        # inverted guard `if <not a switch>: return []` followed by the switch code:
+        # the same as `if not <not a switch>: <switch code>` with the default `return []`
+        t_sw, b_sw, rest = ast.UnaryOp(op=ast.Not(), operand=t_sw), rest, []
+    if not (len(rest) <= 1 and all(isinstance(st, ast.Return) and isinstance(st.value, ast.List) and not st.value.elts
+                                   for st in rest)):
+        raise Unreadable("determineNext's default is no longer `return []`")
     # recognise each case by what its body returns, so that a re-ordering is noticed
     r = b_exit[-1]
-    if not (_returns_list_len(b_exit) == 1 and isinstance(r.value.elts[0], ast.UnaryOp)
-            and isinstance(r.value.elts[0].op, ast.USub) and _int(r.value.elts[0].operand) == 1):
+    if not (_returns_list_len(b_exit) == 1 and _int_or_none(r.value.elts[0]) == -1):
         raise Unreadable("first case of determineNext no longer returns [-1]")
     if _returns_list_len(b_goto) != 1:
         raise Unreadable("second case of determineNext no longer returns one target")
     if _returns_list_len(b_if) != 2:
         raise Unreadable("third case of determineNext no longer returns two targets")
-    if not any(isinstance(x, ast.Attribute) and x.attr == "get_ins_off" for st in b_sw for x in ast.walk(st)):
-        raise Unreadable("fourth case of determineNext no longer looks the payload up")
-    align = None
-    for st in b_sw:
-        for x in ast.walk(st):
-            if isinstance(x, ast.BinOp) and isinstance(x.op, ast.Mod):
-                align = _int(x.right)
-    if align is None:
-        raise Unreadable("payload alignment (% 4) not found in determineNext")
-    subs = [_int(x.left) for st in b_sw for x in ast.walk(st)
-            if isinstance(x, ast.BinOp) and isinstance(x.op, ast.Sub) and isinstance(x.left, ast.Constant)]
-    if subs != [align]:
-        raise Unreadable("padding is no longer `%d - remaining`" % align)
-    return {"isExit": lean_test(t_exit), "isGoto": lean_test(t_goto), "isIf": lean_test(t_if),
-            "isSwitch": lean_test(t_sw)}, align
+    if not isinstance(b_sw[-1], ast.Return):
+        raise Unreadable("fourth case of determineNext no longer returns")
+    align = padding_alignment(b_sw, private_helpers(tree))
+    return {"isExit": lean_test(t_exit, var), "isGoto": lean_test(t_goto, var), "isIf": lean_test(t_if, var),
+            "isSwitch": lean_test(t_sw, var)}, align
+
+
+def _int_or_none(node):
+    try:
+        return _int(node)
+    except Unreadable:
+        return None
 
 
 def extract_push(repo):
     tree = ast.parse(open(os.path.join(repo, ANA)).read())
+    CONSTS.clear()
+    CONSTS.update(module_consts(tree))
     fn = find_def(tree, "push", "DEXBasicBlock")
-    chain = if_chain(fn)
+    var = op_var(fn.body)
+    chain, _ = case_chain(fn.body, var)
     if len(chain) != 1:
         raise Unreadable("DEXBasicBlock.push has %d opcode cases (model knows 1)" % len(chain))
-    return lean_test(chain[0][0])
+    if not any(isinstance(x, ast.Attribute) and x.attr == "get_ins_off" for st in chain[0][1] for x in ast.walk(st)):
+        raise Unreadable("DEXBasicBlock.push no longer links the payload in its opcode case")
+    return lean_test(chain[0][0], var)
 
 
 def extract_xref(repo):
     tree = ast.parse(open(os.path.join(repo, ANA)).read())
+    CONSTS.clear()
+    CONSTS.update(module_consts(tree))
     fn = find_def(tree, "_create_xref", "Analysis")
-    chain = None
+    loop = None
     for node in ast.walk(fn):
         if isinstance(node, ast.For) and isinstance(node.iter, ast.Call) and \
                 isinstance(node.iter.func, ast.Attribute) and node.iter.func.attr == "get_instructions_idx":
-            chain = if_chain(node)
-    if chain is None:
+            loop = node
+    if loop is None:
         raise Unreadable("_create_xref no longer walks get_instructions_idx()")
-    if len(chain) != 4:
-        raise Unreadable("_create_xref has %d opcode cases (model knows 4)" % len(chain))
+    var = op_var(loop.body)
+    chain, rest = case_chain(loop.body, var)
+    if len(chain) != 4 or rest:
+        raise Unreadable("_create_xref has %d opcode cases (model knows 4) / trailing code" % len(chain))
     names = ["isXrefClass", "isXrefMethod", "isXrefString", "isXrefField"]
-    return {n: lean_test(t) for n, (t, _) in zip(names, chain)}
+    return {n: lean_test(t, var) for n, (t, _) in zip(names, chain)}
 
 
 def extract_idx_pure(repo):
